@@ -109,6 +109,64 @@ func TestBSeq(t *testing.T) {
 			})
 	})
 
+	// Kleisli functions that return VIEWS of one shared array (prefixes base[:n], with the rest of the array
+	// as spare capacity) - ordinary Go, e.g. `func(n int) fp.Seq[int] { return base.Take(n) }`. A combinator
+	// that keeps a result it was handed and appends into its spare capacity rewrites the array the later
+	// results are views of. Added after an independently seeded change of exactly that kind in seq.FlatMap.
+	kit.Check(t, "seq.FlatMap/shared-base-views", "m (0-6 small ints), base array (2-8 ints); f(x) = base[:x mod (len(base)+1)], a prefix view whose spare capacity is the rest of base; "+
+		"seq.FlatMap, the FlatMap method, Flatten∘Map, Compose, LiftM and FlatMap∘FlatMap (associativity) against the concat-map over prefix COPIES; non-trivial iff two results are non-empty and the first non-empty one is shorter than base; distinct by printed inputs", bOpt,
+		func(rt *rapid.T, rec *kit.Rec) {
+			m := rapid.SliceOfN(rapid.IntRange(0, 9), 0, 6).Draw(rt, "m")
+			pristine := rapid.SliceOfN(rapid.IntRange(10, 99), 2, 8).Draw(rt, "base")
+			kind := rapid.IntRange(0, 2).Draw(rt, "mkind")
+			g := bGenFn1(rt, "g")
+			n := func(x int) int { return bMod(x, len(pristine)+1) }
+			nonEmpty, firstShort := 0, false
+			for _, x := range m {
+				if n(x) > 0 {
+					if nonEmpty == 0 {
+						firstShort = n(x) < len(pristine)
+					}
+					nonEmpty++
+				}
+			}
+			rec.Case(nonEmpty >= 2 && firstShort, fmt.Sprintf("k%d m=%v base=%v g=%s", kind, m, pristine, g))
+			want := []int{}
+			for _, x := range m {
+				want = append(want, pristine[:n(x)]...)
+			}
+			want2 := []int{} // (m >>= f) >>= (y => f(g y))
+			for _, y := range want {
+				want2 = append(want2, pristine[:n(g.call(y))]...)
+			}
+			variants := []struct {
+				name string
+				want []int
+				run  func(base fp.Seq[int], f func(int) fp.Seq[int]) fp.Seq[int]
+			}{
+				{"seq.FlatMap", want, func(base fp.Seq[int], f func(int) fp.Seq[int]) fp.Seq[int] { return seq.FlatMap(bMkSeq(kind, m), f) }},
+				{"seq.method.FlatMap", want, func(base fp.Seq[int], f func(int) fp.Seq[int]) fp.Seq[int] { return bMkSeq(kind, m).FlatMap(f) }},
+				{"seq.Flatten", want, func(base fp.Seq[int], f func(int) fp.Seq[int]) fp.Seq[int] { return seq.Flatten(seq.Map(bMkSeq(kind, m), f)) }},
+				{"seq.Compose", want, func(base fp.Seq[int], f func(int) fp.Seq[int]) fp.Seq[int] {
+					return seq.Compose(func(int) fp.Seq[int] { return bMkSeq(kind, m) }, f)(0)
+				}},
+				{"seq.LiftM", want, func(base fp.Seq[int], f func(int) fp.Seq[int]) fp.Seq[int] { return seq.LiftM(f)(bMkSeq(kind, m)) }},
+				{"seq.FlatMap/associativity", want2, func(base fp.Seq[int], f func(int) fp.Seq[int]) fp.Seq[int] {
+					return seq.FlatMap(seq.FlatMap(bMkSeq(kind, m), f), func(y int) fp.Seq[int] { return f(g.call(y)) })
+				}},
+			}
+			for _, v := range variants {
+				base := append(fp.Seq[int]{}, pristine...) // a fresh array per variant: full length, no capacity beyond it
+				f := func(x int) fp.Seq[int] { return base[:n(x)] }
+				var got fp.Seq[int]
+				sig := "C01|" + v.name + "|shared-base-views"
+				rec.Guard(rt, sig, func() { got = v.run(base, f) })
+				if fmt.Sprint([]int(got)) != fmt.Sprint(v.want) && !(len(got) == 0 && len(v.want) == 0) {
+					rec.Failf(rt, sig, "%s over m=%v with f(x) = base[:x mod %d], base=%v: got %v, the concat-map gives %v (base afterwards: %v)", v.name, m, len(pristine)+1, pristine, []int(got), v.want, []int(base))
+				}
+			}
+		})
+
 	kit.Check(t, "seq.FilterNil/ref", "a Seq[*int] with nil entries at drawn positions; FilterNil(m) against bind(m, p => p == nil ? empty : unit(*p)); non-trivial iff some entry is nil or length >= 2; distinct by printed input", bOpt, func(rt *rapid.T, rec *kit.Rec) {
 		kind := rapid.IntRange(0, 2).Draw(rt, "kind")
 		xs := rapid.SliceOfN(kit.TinyInt(), 0, 5).Draw(rt, "xs")
